@@ -223,13 +223,15 @@ theorem context_offset (s : SlaveCtx) (fx : Nat) (a n : Int) (k : Nat) (blk : Bl
     (hb : s.blockOf fx = .ok (k, blk)) :
     s.validate fx a n = .ok (blk.validate (if s.zeroMode then a else a + 1) n) ∧
     s.getValues fx a n = blk.get (if s.zeroMode then a else a + 1) n := by
-  simp [SlaveCtx.validate, SlaveCtx.getValues, hb, SlaveCtx.off, bind, Except.bind, pure, Except.pure]
+  cases hz : s.zeroMode <;>
+    simp [SlaveCtx.validate, SlaveCtx.getValues, hb, SlaveCtx.off, hz, bind, Except.bind, pure, Except.pure]
 
 theorem context_set (s : SlaveCtx) (fx : Nat) (a : Int) (vs : List Nat) (k : Nat) (blk : Block)
     (hb : s.blockOf fx = .ok (k, blk)) :
     s.setValues fx a vs =
       .ok { s with blocks := s.blocks.set k (blk.set (if s.zeroMode then a else a + 1) vs) } := by
-  simp [SlaveCtx.setValues, hb, SlaveCtx.off, bind, Except.bind, pure, Except.pure]
+  cases hz : s.zeroMode <;>
+    simp [SlaveCtx.setValues, hb, SlaveCtx.off, hz, bind, Except.bind, pure, Except.pure]
 
 /-- The function-code → table map is the documented one. -/
 theorem fx_tables :
